@@ -46,6 +46,7 @@ impl Family for C11Family {
             real: &["Client::{register,authenticate} incl. map_rk and credProps output", "Authenticator::{make_credential,get_assertion,get_info}", "DiscoverabilitySupport::is_passkey_discoverable"],
             stubs: &["executor", "SimStore seam + reference store (capability knob)", "SimUser", "seeded RNG behind the hook"],
             crash_isolated: false,
+            fresh_thread: true,
         }
     }
 
@@ -99,7 +100,9 @@ impl Family for C11Family {
             s.rk = n / 3 == 1;
             reg_kind = OpKind::MakeCredential(s);
         }
-        let mut c = ceremony(Backend::Ref, *r.pick(&WRAPS), store);
+        let contended = r.chance(1, 4);
+        let wrap = if contended { *r.pick(&[Wrap::ArcMutex, Wrap::ArcRwLock]) } else { *r.pick(&WRAPS) };
+        let mut c = ceremony(Backend::Ref, wrap, store);
         c.rng_seed = r.next_u64();
         c.cell = Some(cell as u32);
         let mut op = plain_op(reg_kind);
@@ -119,6 +122,22 @@ impl Family for C11Family {
         // a second use of the same credential (the first one may have rewritten the record)
         actor.ops.push(plain_op(auth_kind));
         c.actors.push(actor);
+        if contended {
+            // a second authenticator keeps the shared store busy with slow ceremonies for another RP
+            let mut other = gen_actor(&mut r);
+            other.hmac = HmacCfg::None;
+            for _ in 0..r.range(2, 3) {
+                let mut s = gen_mc(&mut r, "busy.example.net");
+                s.exclude = None;
+                s.rk = false;
+                s.uv = false;
+                let mut op = plain_op(OpKind::MakeCredential(s));
+                op.yields = vec![3, 3, 3, 3, 3, 3];
+                other.ops.push(op);
+            }
+            c.actors.push(other);
+            c.schedule = gen_schedule(&mut r, 96);
+        }
         Scenario { family: "C11".into(), batch: "cells".into(), seed: master, index, body: Body::Ceremony(c) }
     }
 
@@ -127,7 +146,7 @@ impl Family for C11Family {
         let rec = run_and_measure(c, stats);
         let mut j = Judge::new("C11", scn, &rec);
         stats.cells_total = CELLS;
-        for p in ["required_rk_refused_by_non_discoverable_store", "forced_discoverable_overrides_request", "cred_props_reported", "assertion_returned_user_handle", "assertion_without_user_handle"] {
+        for p in ["cell_on_contended_store", "required_rk_refused_by_non_discoverable_store", "forced_discoverable_overrides_request", "cred_props_reported", "assertion_returned_user_handle", "assertion_without_user_handle"] {
             stats.declare_probe(p);
         }
         if rec.panic.is_some() || rec.outcome != Outcome2::Done {
@@ -137,6 +156,9 @@ impl Family for C11Family {
         if let Some(cell) = c.cell {
             stats.cells.insert(u64::from(cell));
             stats.nontrivial.insert(u64::from(cell));
+        }
+        if c.actors.len() > 1 {
+            stats.probe("cell_on_contended_store");
         }
         let cap = c.store.capability;
         let Some(reg) = rec.op(0, 0) else { return Vec::new() };
